@@ -198,9 +198,15 @@ def explore(si, seed=0, shadow_every=0, progress=None, want_samples=4):
         pairs = []
         nxt = []
         level_viol = []
+        partial = False
         for status, payload, npairs, bad in P.imap_unordered(_expand, tasks):
             if status != "ok":
                 raise HarnessError(payload)
+            if budget and time.time() - t0 > 1.5 * budget and not level_viol:
+                # the safety net also cuts a level that runs far beyond the budget: what was expanded so far
+                # has been checked, the level is reported as partial
+                partial = True
+                break
             res.shadow_checked += npairs
             res.replayed += 2 * npairs
             if bad:
@@ -228,6 +234,17 @@ def explore(si, seed=0, shadow_every=0, progress=None, want_samples=4):
                         dups += 1
                         if dups % shadow_every == 0:
                             pairs.append((seen[key], hist + (ei,)))
+        if partial:
+            close_pool()
+            P = pool()
+            res.states = len(seen)
+            res.cap_hit = ("time budget of %ds exceeded during depth %d (that level was expanded only partially; "
+                           "depth %d is complete)" % (budget, depth + 1, depth))
+            frontier = nxt or frontier
+            if level_viol:
+                level_viol.sort(key=lambda v: (len(v[0]), v[0], v[1]))
+                res.violations = level_viol
+            break
         depth += 1
         res.depth_done = depth
         res.states = len(seen)
